@@ -33,6 +33,7 @@ func (fr *FuncRun) havocResults(st *State, res *types.Tuple, hint string) Val {
 		t := res.At(0).Type()
 		v := Val{T: fr.fresh(w.SortOf(t), hint), S: w.SortOf(t)}
 		fr.rangeAssume(st, v.T, t)
+		fr.existingRef(v, t)
 		return v
 	}
 	var tup []Val
@@ -40,9 +41,23 @@ func (fr *FuncRun) havocResults(st *State, res *types.Tuple, hint string) Val {
 		t := res.At(i).Type()
 		v := Val{T: fr.fresh(w.SortOf(t), fmt.Sprintf("%s_r%d", hint, i)), S: w.SortOf(t)}
 		fr.rangeAssume(st, v.T, t)
+		fr.existingRef(v, t)
 		tup = append(tup, v)
 	}
 	return Val{Tup: tup}
+}
+
+// existingRef: a reference obtained from a call was allocated before now.
+func (fr *FuncRun) existingRef(v Val, t types.Type) {
+	if hasBound(v.T) {
+		return
+	}
+	switch t.Underlying().(type) {
+	case *types.Map, *types.Chan, *types.Pointer:
+		fr.emit(fmt.Sprintf("(assert (<= %s %s))", v.T, fr.allocTop))
+	case *types.Slice:
+		fr.emit(fmt.Sprintf("(assert (<= (s-arr %s) %s))", v.T, fr.allocTop))
+	}
 }
 
 func pkgPathOf(fn *ssa.Function) string {
@@ -336,7 +351,8 @@ func (fr *FuncRun) havocAllHeaps(st *State) {
 		if h == "Held" {
 			continue
 		}
-		st.heaps[h] = fr.fresh(srt, h)
+		_ = srt
+		st.heaps[h] = fr.freshHeap(h)
 		fr.noteHeapWrite(h)
 	}
 }
@@ -375,7 +391,11 @@ func (fr *FuncRun) execGo(f *Frame, st *State, x *ssa.Go) {
 	fr.scout++
 	sc := st.clone()
 	savedLocks := fr.mutexes
+	mk := fr.mark()
+	savedTop := fr.allocTop
 	fr.inlineCall(f, sc, target, clo, args, x.Pos())
+	fr.rollback(mk)
+	fr.allocTop = savedTop
 	fr.mutexes = savedLocks
 	fr.scout--
 	fr.wsStack = fr.wsStack[:len(fr.wsStack)-1]
@@ -510,6 +530,31 @@ func (fr *FuncRun) builtinAppend(f *Frame, st *State, c *ssa.CallCommon, args []
 	} else {
 		tlen = "(s-len " + t.T + ")"
 	}
+	if !tIsString {
+		if elems, ok := fr.variadicElems(f, st, c.Args[1], t); ok {
+			// statically known number of appended elements: no quantifiers needed.
+			n := len(elems)
+			newLen := fr.def(sInt, fmt.Sprintf("(+ (s-len %s) %d)", s.T, n))
+			fits := fr.def(sBool, "(<= "+newLen+" (s-cap "+s.T+"))")
+			nref := fr.allocRef("append")
+			ncap := fr.fresh(sInt, "newcap")
+			fr.assume(st, "(>= "+ncap+" "+newLen+")")
+			arr := fr.def(sInt, ite(fits, "(s-arr "+s.T+")", nref))
+			cp := fr.def(sInt, ite(fits, "(s-cap "+s.T+")", ncap))
+			cur := fr.heapCur(st, eh)
+			contents := sel(cur, "(s-arr "+s.T+")")
+			for i, e := range elems {
+				contents = fmt.Sprintf("(store %s (+ (s-off %s) (s-len %s) %d) %s)", contents, s.T, s.T, i, e)
+			}
+			savedFresh := fr.curWriteFresh
+			fr.curWriteFresh = s.FreshArr
+			fr.heapSet(st, eh, sto(cur, arr, contents))
+			fr.curWriteFresh = savedFresh
+			fr.assumed["abstraction: a reallocating append copies the whole old backing array (cells beyond len are not zeroed)"] = true
+			r := fr.def(sSlice, fmt.Sprintf("(mk-slice %s (s-off %s) %s %s)", arr, s.T, newLen, cp))
+			return Val{T: r, S: sSlice, FreshArr: s.FreshArr}
+		}
+	}
 	newLen := fr.def(sInt, "(+ (s-len "+s.T+") "+tlen+")")
 	// Either reuse the backing array (when capacity suffices) or allocate a new one.
 	fits := fr.def(sBool, "(<= "+newLen+" (s-cap "+s.T+"))")
@@ -551,6 +596,27 @@ func (fr *FuncRun) builtinCopy(f *Frame, st *State, c *ssa.CallCommon, args []Va
 	if tb, ok := c.Args[1].Type().Underlying().(*types.Basic); ok && tb.Info()&types.IsString != 0 {
 		slen = "(strlen " + s.T + ")"
 		isStr = true
+	}
+	if d.ArrBack != nil && !isStr {
+		// copy(array[:], src): write through to the array itself
+		cur := fr.heapCur(st, eh)
+		srcInner := sel(cur, "(s-arr "+s.T+")")
+		if s.ArrBack != nil && s.ArrLen == d.ArrLen {
+			srcArr := fr.loadRaw(st, s.ArrBack)
+			fr.storeRaw(st, d.ArrBack, srcArr)
+			return Val{T: fmt.Sprintf("%d", d.ArrLen), S: sInt}
+		}
+		if d.ArrLen <= 128 {
+			dst := fr.loadRaw(st, d.ArrBack)
+			t := dst.T
+			for i := int64(0); i < d.ArrLen; i++ {
+				e := w.At(stype.Elem(), srcInner, "(s-off "+s.T+")", fmt.Sprintf("%d", i))
+				t = fmt.Sprintf("(store %s %d (ite (< %d (s-len %s)) %s (select %s %d)))", t, i, i, s.T, e, dst.T, i)
+			}
+			fr.storeRaw(st, d.ArrBack, Val{T: fr.defAlways(dst.S, t, "arrcopy"), S: dst.S})
+			n := fr.def(sInt, fmt.Sprintf("(ite (<= %d (s-len %s)) %d (s-len %s))", d.ArrLen, s.T, d.ArrLen, s.T))
+			return Val{T: n, S: sInt}
+		}
 	}
 	n := fr.def(sInt, fmt.Sprintf("(ite (<= (s-len %s) %s) (s-len %s) %s)", d.T, slen, d.T, slen))
 	cur := fr.heapCur(st, eh)
